@@ -908,6 +908,30 @@ theorem C08_fast_erode_view_correct (mA : Int → Int) (vA : View) (mB : Int →
     exact hspec By Bx hB (by simp [logical_length, hB, shapeSize])
 
 
+/-- **the binary fast path of dilate equals the generic kernel, for any layout of `Bc`** (composition with
+`C01_fast_dilate_loops_eq_pointwise` and `C01_fast_dilate_eq_generic`): on a 0/1 image the fast path taken by
+`py_dilate` for 2-D bool C-arrays writes exactly the array the generic view kernel `dilateView` writes — the
+`ISCARRAY` dispatch, a property of the memory layout, is unobservable, and `C08_dilate_view_correct` applies to both. -/
+theorem C08_fast_dilate_view_eq_generic (mA : Int → Int) (vA : View) (mB : Int → Int) (vB : View) (Ny Nx By Bx : Nat)
+    (hA : vA.shape = [Ny, Nx]) (hB : vB.shape = [By, Bx]) (wfA : vA.WF) (hc : vA.carray = true)
+    (h : FilterArgs (outView vA.shape) vB true)
+    (h01 : ∀ q, (toImg mA vA).getD q 0 = 0 ∨ (toImg mA vA).getD q 0 = 1) :
+    pyDilateView dtBool mA vA mB vB = fastBinaryView false mA vA mB vB ∧
+    fastBinaryView false mA vA mB vB = dilateView dtBool mA vA mB vB := by
+  constructor
+  · unfold pyDilateView
+    rw [if_pos (by simp [dtBool, hA, hc])]
+  · have hdata : (toImg mA vA).data.size = (toImg mA vA).size := by
+      simp [toImg, Img.size, logical_length]
+    have hb : dtBool.isBool = true := rfl
+    rw [(C08_defined_everywhere_fast_binary false mA vA mB vB Ny Nx By Bx hA hB wfA hc).1,
+      dilateView_eq_C01 dtBool mA vA mB vB wfA (hb ▸ h)]
+    simp only [Bool.false_eq_true, if_false, hb]
+    rw [C01_fast_dilate_loops_eq_pointwise (toImg mA vA) Ny Nx vB.shape _ hA hdata h01, hB,
+      C01_fast_dilate_eq_generic (toImg mA vA) Ny Nx By Bx _ hA hdata h01
+        (by simp [logical_length, hB, shapeSize])]
+
+
 /-! non-vacuity (Round 3). (i) The Fortran-ordered 2×2 view of `[[5,9],[3,1]]` and the 1×2 element of the Round-2 example
     meet the hypotheses of `C08_erodeView_eq_C01`; the right-hand side is the non-trivial array `[4,4,2,0]` of
     `C01.erodeModel` on the logical arrays. (ii) hitmiss on a 3×3 Fortran-ordered view with a 3×3 template in a
